@@ -6,6 +6,7 @@ import (
 	"errors"
 	"fmt"
 	"sort"
+	"strings"
 	"sync"
 
 	"github.com/milvus-io/milvus-proto/go-api/v2/commonpb"
@@ -27,6 +28,8 @@ type SimSDK struct {
 	Inc   int // current CDC incarnation (stamped into the ack log)
 	// TgtPrefix is the name prefix of downstream pchannels
 	TgtPrefix string
+	// Note, when set, receives one line per acknowledged write (enters the event log of the run)
+	Note func(format string, a ...any)
 }
 
 type SDKPart struct {
@@ -362,8 +365,12 @@ func (c *simClient) UpdateCredential(ctx context.Context, username string, oldPa
 func (c *simClient) DeleteCredential(ctx context.Context, username string) error {
 	return c.rbac(ctx, "deleteuser", username)
 }
-func (c *simClient) CreateRole(ctx context.Context, name string) error { return c.rbac(ctx, "createrole", name) }
-func (c *simClient) DropRole(ctx context.Context, name string) error   { return c.rbac(ctx, "droprole", name) }
+func (c *simClient) CreateRole(ctx context.Context, name string) error {
+	return c.rbac(ctx, "createrole", name)
+}
+func (c *simClient) DropRole(ctx context.Context, name string) error {
+	return c.rbac(ctx, "droprole", name)
+}
 func (c *simClient) AddUserRole(ctx context.Context, username string, role string) error {
 	return c.rbac(ctx, "adduserrole", username)
 }
@@ -428,6 +435,13 @@ func (c *simClient) ReplicateMessage(ctx context.Context, channelName string, be
 		ack.Msgs = append(ack.Msgs, am)
 	}
 	c.w.State.Acks = append(c.w.State.Acks, ack)
+	if c.w.Note != nil {
+		var sb strings.Builder
+		for _, m := range ack.Msgs {
+			fmt.Fprintf(&sb, " %s:%d@%d", m.Type, m.Tag, m.Ts)
+		}
+		c.w.Note("ack %s [%d,%d] seq=%d%s", channelName, beginTs, endTs, ack.EndSeq, sb.String())
+	}
 	pos := &msgpb.MsgPosition{ChannelName: channelName, MsgID: []byte(fmt.Sprintf("t%d", len(c.w.State.Acks))), Timestamp: endTs}
 	b, _ := proto.Marshal(pos)
 	return &entity.MessageInfo{Position: base64.StdEncoding.EncodeToString(b)}, nil
